@@ -54,6 +54,7 @@ def run(ctx: Ctx) -> None:
     sentinel(ctx, rs)
     read_only(ctx, py, rs)
     little_endian(ctx, py, rs)
+    lookup_purity_and_handlers(ctx, py)
 
 
 # ---------------------------------------------------------------------------
@@ -438,3 +439,63 @@ def little_endian(ctx: Ctx, py: PyProgram, rs: RustProgram) -> None:
         if bts:
             ctx.sample({"fn": qual, "bytes": expr_text(bts[0])})
     ctx.instance("C11.5/little-endian", "multi-byte accessors are little-endian byte compositions (Python 6 accessors + direct-storage ban, Rust 6 loops)", n, 18)
+
+
+def lookup_purity_and_handlers(ctx: Ctx, py: PyProgram) -> None:
+    """(a) a load is a function of the address and the memory contents: the lookup functions do not read an attribute of their own object
+    that they also assign (state carried from one access to the next); (b) the read and the write handler of one window index the same
+    backing store with the same expression under the same bounds, so a store is read back at - and only at - the address it went to."""
+    n = 0
+    for rel, q in ((BUS_PY, "MemoryBus.read"), (BUS_PY, "MemoryBus.write"), (MEM_PY, "PCE500Memory.read_byte")):
+        fn = py.func(rel, q)
+        g = cfgmod.build_py(fn, q)
+        assigned = {}
+        for a in ast.walk(fn):
+            if isinstance(a, (ast.Assign, ast.AugAssign, ast.AnnAssign)):
+                ts = a.targets if isinstance(a, ast.Assign) else [a.target]
+                for t in ts:
+                    if isinstance(t, ast.Attribute) and isinstance(t.value, ast.Name) and t.value.id == "self":
+                        assigned.setdefault(t.attr, []).append(a)
+        for x in ast.walk(fn):
+            if isinstance(x, ast.Attribute) and isinstance(x.ctx, ast.Load) and isinstance(x.value, ast.Name) and x.value.id == "self" and x.attr in assigned:
+                n += 1
+                node = g.node_of(x)
+                doms = [g.node_of(a) for a in assigned[x.attr]]
+                if node is None or not any(d is not None and d != node and g.dominates(d, node) for d in doms):
+                    ctx.violation("C11.6/lookup-state", key_of(rel, q, f"self.{x.attr} carried between accesses"),
+                                  f"{q} reads self.{x.attr} which it also assigns, without assigning it first in the same call: the result of an access depends on the accesses before it", f"{rel}:{x.lineno}")
+        n += 1
+    # (b) handler pairs defined as closures next to each other
+    init = py.func(MEM_PY, "PCE500Memory.__init__")
+    closures = {f.name: f for f in ast.walk(init) if isinstance(f, ast.FunctionDef) and f is not init}
+    pairs = 0
+    for c in ast.walk(init):
+        if isinstance(c, ast.Call) and unparse(c.func).endswith("MemoryOverlay"):
+            kw = {k.arg: k.value for k in c.keywords}
+            r, w = kw.get("read_handler"), kw.get("write_handler")
+            if isinstance(r, ast.Name) and isinstance(w, ast.Name) and r.id in closures and w.id in closures:
+                pairs += 1
+                rf, wf = closures[r.id], closures[w.id]
+
+                def accesses(f: ast.FunctionDef) -> set[tuple]:
+                    gg = cfgmod.build_py(f, f.name)
+                    d = py_defs(f)
+                    out = set()
+                    for sub in ast.walk(f):
+                        if isinstance(sub, ast.Subscript) and (attr_chain(sub.value) or "").startswith("self._"):
+                            idx = sub.slice
+                            txt = unparse(idx)
+                            if isinstance(idx, ast.Name) and len([v for v in d.get(idx.id, []) if isinstance(v, ast.AST)]) == 1:
+                                txt = unparse([v for v in d[idx.id] if isinstance(v, ast.AST)][0])
+                            node = gg.node_of(sub)
+                            guards = tuple(sorted(py_guard_text(q_) for q_ in gg.guards_of(node) if "offset" in py_guard_text(q_) or "address" in py_guard_text(q_))) if node is not None else ()
+                            out.add((attr_chain(sub.value), " ".join(txt.split()), guards))
+                    return out
+                ra, wa = accesses(rf), accesses(wf)
+                n += 1
+                if ra != wa:
+                    ctx.violation("C11.6/handler-pair", key_of(MEM_PY, "PCE500Memory.__init__", f"{r.id} / {w.id} index differently"),
+                                  f"the read handler {r.id} uses {sorted(ra)} and the write handler {w.id} uses {sorted(wa)}: a store is not read back at the address it went to, or shows up at other addresses", f"{MEM_PY}:{rf.lineno}")
+    if pairs < 1:
+        raise AnalysisError("PCE500Memory.__init__: no overlay with a read/write closure pair found (memory card window expected)")
+    ctx.instance("C11.6/lookup-purity", "lookup functions carry no state between accesses; read/write handler pairs index their store identically", n, 4)
